@@ -103,7 +103,7 @@ Proof.
     replace (is_ascii_digit b) with false by (unfold is_ascii_digit, is_ascii_alphabetic, in_rng in *; lia).
     replace (N.eqb b 45) with false by (unfold is_ascii_alphabetic, in_rng in Hb; lia).
     replace (N.eqb b 36) with false by (unfold is_ascii_alphabetic, in_rng in Hb; lia).
-    cbn [andb]. rewrite Hb. rewrite bind_advance. change (1 + p) with (S p).
+    cbn [andb]. rewrite Hb. cbn [andb negb]. rewrite bind_advance. change (1 + p) with (S p).
     destruct att as [a|].
     + apply andb_prop in Hi as [_ Ha].
       assert (H0' : at_ bs p ((b :: r) ++ 46%N :: a ++ b2 ++ c :: rest)).
@@ -527,7 +527,7 @@ Proof.
   replace (is_ascii_digit b0) with false by (unfold is_ascii_digit, is_ascii_alphabetic, in_rng in *; lia).
   replace (N.eqb b0 45) with false by (unfold is_ascii_alphabetic, in_rng in Hb0; lia).
   replace (N.eqb b0 36) with false by (unfold is_ascii_alphabetic, in_rng in Hb0; lia).
-  cbn [andb]. rewrite Hb0. rewrite bind_advance. change (1 + p) with (S p).
+  cbn [andb]. rewrite Hb0. cbn [andb negb]. rewrite bind_advance. change (1 + p) with (S p).
   assert (HA40 : exists A', A = 40%N :: A') by (destruct HA; eexists; reflexivity).
   destruct HA40 as [A' EA].
   destruct (blank_paren_head b (A' ++ t) Hb) as (Hh1 & Hh2 & Hh3).
